@@ -106,6 +106,41 @@ def rule_s3(chk: Check) -> None:
         if not ok:
             chk.finding("S3", fi.key, f"chunk-use:{param}", f"the chunk `{param}` is read {len(uses)} times but only {good} of these are the buffer append: the outcome can depend on how reads are segmented", fi.loc())
         chk.ob("S3", f"{fi.key}: chunk only appended", ok, evals=max(1, len(uses)))
+        # nothing may be read from the buffer BEFORE the chunk is appended: such a
+        # value (typically the old length) encodes where the read boundary fell.
+        # Accepted idiom: old length used only as the start of a separator
+        # search, moved back by at least len(separator) - 1.
+        g = build_cfg(chk.proj, fi)
+        app = [n for n in g.nodes if n.kind == "stmt" and n.ast is not None and isinstance(n.ast, (ast.AugAssign, ast.Assign)) and any(is_self_attr(t, "buffer") for t in ([n.ast.target] if isinstance(n.ast, ast.AugAssign) else n.ast.targets)) and any(isinstance(x, ast.Name) and x.id == param for x in walk(n.ast.value))]
+        if app:
+            before = g.reach([g.entry.id], blocked_nodes={a.id for a in app}, follow=normal_only)
+            for nid in before:
+                n = g.nodes[nid]
+                if n.ast is None or n.kind not in ("stmt", "test"):
+                    continue
+                reads = [x for x in walk(n.ast) if is_self_attr(x, "buffer") and isinstance(x.ctx, ast.Load)]
+                if not reads:
+                    continue
+                okb = False
+                if isinstance(n.ast, ast.Assign) and isinstance(n.ast.targets[0], ast.Name):
+                    v = n.ast.targets[0].id
+                    uses = [x for x in walk(fi.node) if isinstance(x, ast.Name) and x.id == v and isinstance(x.ctx, ast.Load)]
+                    safe = 0
+                    for c in calls(fi.node):
+                        mc = method_call(c)
+                        if mc and mc[1] in ("find", "index") and len(c.args) >= 2:
+                            st = c.args[1]
+                            inner = st.args[1] if isinstance(st, ast.Call) and dotted(st.func) == "max" and len(st.args) == 2 else st
+                            if isinstance(inner, ast.BinOp) and isinstance(inner.op, ast.Sub) and isinstance(inner.left, ast.Name) and inner.left.id == v and isinstance(inner.right, ast.Constant) and isinstance(inner.right.value, int) and inner.right.value >= 1:
+                                safe += 1
+                    okb = bool(uses) and safe == len(uses)
+                if not okb:
+                    chk.finding(
+                        "S3", fi.key, f"pre-append-read:{norm(n.ast)[:50]}",
+                        f"`{norm(n.ast)[:80]}` reads the buffer before the new chunk is appended: the value records where the read boundary fell, so a decision based on it depends on how the stream was segmented (e.g. a separator split across two reads is missed)",
+                        n.where(),
+                    )
+                chk.ob("S3", f"{fi.key}: pre-append read `{norm(n.ast)[:40]}` is boundary-safe", okb)
         # no read counter / per-call accumulation other than the buffer
         bad = []
         for st in walk(fi.node):
